@@ -75,3 +75,43 @@ add("C13",
            (PAT, """            if re.fullmatch(pattern, value, flags=0 if is_case else re.IGNORECASE):""", """            flags = 0 if is_case else re.IGNORECASE
             if re.fullmatch(pattern, value, flags=flags):"""), None),
     )
+
+add("C13",
+    Mutant("Q5 the pending set of get_instances is built without excluding what was already returned (seeded C13-w3C)",
+           (U + "get_instances.py", """        for other_instance in other_instances:
+            if other_instance in found:
+                continue
+            found.add(other_instance)""", """        for other_instance in other_instances:
+            found.add(other_instance)"""), "stage pending vs found"),
+    Mutant("Q5 the name map of get_definitions is filled without excluding what was already returned",
+           (U + "get_definitions.py", """            if other_definition in found:
+                continue
+            found.add(other_definition)""", """            found.add(other_definition)"""), "stage namemap vs found"),
+    Mutant("Q9 register_lookup stores before it refuses (seeded C13-w3B)",
+           ("spydrnet/global_state/global_service.py", """    if key in _registered_lookups:
+        raise ValueError(
+            "Cannot register a fast lookup under the key {}, lookup already registered."
+        )
+    else:
+        _registered_lookups[key] = func""", """    registered = len(_registered_lookups)
+    _registered_lookups[key] = func
+    if len(_registered_lookups) == registered:
+        raise ValueError(
+            "Cannot register a fast lookup under the key {}, lookup already registered."
+        )"""), "Q9|spydrnet/global_state/global_service.py:register_lookup"),
+    Mutant("Q5 twin: filter by an enclosing not-in test",
+           (U + "get_instances.py", """            if other_instance in found:
+                continue
+            found.add(other_instance)
+            pending.add(other_instance)
+            name = other_instance[key] if key in other_instance else ""
+            if name not in namemap:
+                namemap[name] = []
+            namemap[name].append(other_instance)""", """            if other_instance not in found:
+                found.add(other_instance)
+                pending.add(other_instance)
+                name = other_instance[key] if key in other_instance else ""
+                if name not in namemap:
+                    namemap[name] = []
+                namemap[name].append(other_instance)"""), None),
+)
